@@ -187,11 +187,6 @@ def run(chk):
         if not why:
             return
         cls = classes.classify(fake, r)
-        if cls is None and md is not None:
-            if md.get("nz") == "0":
-                cls = "f1d_code_zero_edge"
-            elif md.get("okpred") == "0":
-                cls = "fd_no_recheck"
         if cls is None:
             cls = classes.classify_extreme(fake, r)
         if cls and cls in chk.known_classes:
